@@ -84,7 +84,7 @@ func runC11(c *Ctx) {
 				// must be bounded by BatchPartition and len(Batches)-1, or the constant 0
 				okAll := true
 				var leaves []string
-				for _, lf := range Leaves(st.Val, st.Block()) {
+				for _, lf := range LeavesDeep(st.Val, st.Block()) {
 					lt := TermOf(lf.V)
 					leaves = append(leaves, lt.String())
 					if lt.Op == "const" && lt.Name == "0" {
@@ -473,7 +473,11 @@ func checkFinalizeWaits(c *Ctx, rule string) {
 				} else {
 					marker := ConstVal(p.ConstObj("api/v1beta1", "OriginalDeploymentStrategyAnnotation"))
 					n := 0
-					for _, call := range AllCalls(fn) {
+					var delCalls []ssa.CallInstruction
+					for _, ff := range samePkgClosure(p, fn) {
+						delCalls = append(delCalls, AllCalls(ff)...)
+					}
+					for _, call := range delCalls {
 						if !strings.HasSuffix(CalleeName(call.Common()), ".DeleteAnnotation") {
 							continue
 						}
@@ -482,7 +486,38 @@ func checkFinalizeWaits(c *Ctx, rule string) {
 							continue
 						}
 						n++
-						r3, _ := CanReach(Entry(fn), func(in ssa.Instruction) bool { return in == call.(ssa.Instruction) }, ReachOpts{CutEdge: waitEdge})
+						holder := call.Parent()
+						var r3 bool
+						if holder == fn {
+							r3, _ = CanReach(Entry(fn), func(in ssa.Instruction) bool { return in == call.(ssa.Instruction) }, ReachOpts{CutEdge: waitEdge})
+						} else {
+							// the removal sits in a helper: inside the helper it must follow the helper's own wait,
+							// or every call of the helper in Finalize must follow Finalize's wait
+							var inner []FactM
+							for _, w := range CallsIn(holder, s.waitCall) {
+								inner = append(inner, FNil(MResultOf(w, -1)))
+							}
+							r3 = true
+							if len(inner) > 0 {
+								r3, _ = CanReach(Entry(holder), func(in ssa.Instruction) bool { return in == call.(ssa.Instruction) }, ReachOpts{CutEdge: func(b *ssa.BasicBlock, k int) bool { return EdgeFactMatches(b, k, FOr(inner...)) }})
+							}
+							if r3 {
+								sites := 0
+								allAfter := true
+								for _, hc := range AllCalls(fn) {
+									if hc.Common().StaticCallee() != holder {
+										continue
+									}
+									sites++
+									if rr, _ := CanReach(Entry(fn), func(in ssa.Instruction) bool { return in == hc.(ssa.Instruction) }, ReachOpts{CutEdge: waitEdge}); rr {
+										allAfter = false
+									}
+								}
+								if sites > 0 && allAfter {
+									r3 = false
+								}
+							}
+						}
 						okWait := !r3
 						if !okWait {
 							detail = "the wait is skipped once the deployment is 'restored', but the restored marker (" + marker + ") is removed at " + p.Pos(call.Pos()) + " before the wait has succeeded"
